@@ -507,6 +507,12 @@ def float_pf_check(m, ports):
 
 # ---------------- main ----------------
 def run_part(ctx):
+    # the three formulation getters of MIRP regenerated from the source and proved equal to MirpWrap.v
+    import translate_mirpwrap as TMW
+    ctx.gen_step("mirpwrap", TMW.translate, "C09_wrap_gen",
+                 "harness/translate_mirpwrap.py (subclass of the typed printer translate_mirp.py for MIRP.get_arc_based / "
+                 "get_path_based (with the nested time_costs) / get_sequence_based; meaning of the emitted combinators: "
+                 "coq/theories/PyMirpWrap.v, PyMirp.v; estimate_high_cost is the definition generated by translate_mirp)")
     rng = ctx.rng
     n_canon = 150 if ctx.quick else 2000
     n_hist = 45 if ctx.quick else 500
